@@ -686,7 +686,8 @@ func runProperty(prop *PropSpec, tier string, seed int, verbose int, only string
 		}
 		lockLocations = len(acc)
 		idxOf := func(s string) (int, string) {
-			// "12:Beep (writeString)"
+			// "12:Beep (writeString)"  (note values are quoted)
+			s = strings.Trim(strings.Replace(s, "\"", "", -1), " ")
 			n := 0
 			i := 0
 			for i < len(s) && s[i] >= '0' && s[i] <= '9' {
@@ -711,6 +712,7 @@ func runProperty(prop *PropSpec, tier string, seed int, verbose int, only string
 			ui, wi int
 			wn     string
 			locs   []string
+			best   int
 		}
 		cands := map[string]*cand{}
 		for _, loc := range locs {
@@ -730,16 +732,25 @@ func runProperty(prop *PropSpec, tier string, seed int, verbose int, only string
 			for _, u := range us {
 				ui, un := idxOf(u)
 				wi, wn := idxOf(ws[0])
-				for _, w := range ws { // prefer a writer that is a different method
-					if i2, n2 := idxOf(w); n2 != un {
-						wi, wn = i2, n2
-						break
-					}
-				}
 				c := cands[un]
 				if c == nil {
-					c = &cand{ui: ui, wi: wi, wn: wn}
+					c = &cand{ui: ui, wi: wi, wn: wn, best: 99}
 					cands[un] = c
+				}
+				for _, w := range ws { // racing partner: a different method, preferably one that always touches the state
+					i2, n2 := idxOf(w)
+					if n2 == un {
+						continue
+					}
+					rank := 50
+					for r, pref := range []string{"SetContent", "RegisterRuneFallback", "Fill", "SetStyle", "ShowCursor", "Sync", "Show"} {
+						if n2 == pref {
+							rank = r
+						}
+					}
+					if rank < c.best {
+						c.best, c.wi, c.wn = rank, i2, n2
+					}
 				}
 				dup := false
 				for _, l := range c.locs {
